@@ -57,7 +57,7 @@ def sched_runs(res, work, tier, seed, clauses, parts=5, only=None, matcher=None,
         meta = vlib.read_meta(d)
         if meta["execs"] == 0:
             return d, meta, [], None
-        fails, r = vlib.tlc_trace(d, "MCM3ObsTrace.tla", "M3ObsTrace.cfg", os.path.join(d, "trace.ndjson"), meta["events"], timeout=3000)
+        fails, r = vlib.tlc_trace(d, "MCM3ObsTrace.tla", "M3ObsTrace.cfg", os.path.join(d, "trace.ndjson"), meta["events"], timeout=3000, boundary='"e":"scn"')
         if r["violated"] or not r["consumed"]:
             raise vlib.Infra("M3ObsTrace did not consume the trace of part %d: %s\n%s" % (i, r["violated"], r["out"][-3000:]))
         if step_level and meta.get("step_events", 0) > 0:
